@@ -114,6 +114,10 @@ class StmtMixin:
       if len(v.items) != n:
         self.raise_('ValueError', VStr('unpack mismatch'))
       return v.items
+    if isinstance(v, VOpaque) and n == 2:
+      # an opaque element that is unpacked into two is a pair (zip / enumerate / (output, input) tuples)
+      from .interp import pair_fst, pair_snd
+      return [VOpaque(pair_fst(v.t)), VOpaque(pair_snd(v.t))]
     raise Unsupported(f'unpack {type(v).__name__}')
 
   def st_Delete(self, node, env):
